@@ -72,7 +72,7 @@ def run(tier, seed):
                 None if doms else ['no `%s.reset()` dominates this call (reset receivers in shoot(): %s): whatever `%s` held before '
                                    'this shot - e.g. the particles of a shot that threw before handing them over - is still in it'
                                    % (tgt, sorted({ir.fmt(r.stmt[2][0]) for r in rs if r.stmt[2]}) or 'none', tgt)])
-    rep.floor('SHOOT.same-event', nse, 3)
+    rep.floor('SHOOT.same-event', nse, 2)
     ev = typestate.reset_complete(rep, prog, 'bxdecay0::event', 'bxdecay0::event::reset', 'RESET.complete')
     pt = typestate.reset_complete(rep, prog, 'bxdecay0::particle', 'bxdecay0::particle::reset', 'RESET.complete')
     rep.rule('RESET.complete', 'reset() of event/particle/bbpars assigns every data member (write-set inclusion): a reused '
